@@ -1,0 +1,204 @@
+//go:build verif
+
+package fsm
+
+// Behaviours of (*FSM).Do for the DKG machine (written by /verif/tools/gen_do_contracts.py).
+//
+//@ import dpf "github.com/lidofinance/dc4bc/fsm/state_machines/dkg_proposal_fsm"
+//@ import internal "github.com/lidofinance/dc4bc/fsm/state_machines/internal"
+//@ import requests "github.com/lidofinance/dc4bc/fsm/types/requests"
+//
+//@ spec func dkgM(f *FSM) *dpf.DKGProposalFSM = machOf(f, "dkg_proposal_fsm")
+//@ spec func dkgCancelled(s State) bool = s == dpf.StateDkgCommitsAwaitCanceledByError || s == dpf.StateDkgCommitsAwaitCanceledByTimeout || s == dpf.StateDkgDealsAwaitCanceledByError || s == dpf.StateDkgDealsAwaitCanceledByTimeout || s == dpf.StateDkgResponsesAwaitCanceledByError || s == dpf.StateDkgResponsesAwaitCanceledByTimeout || s == dpf.StateDkgMasterKeyAwaitCanceledByError || s == dpf.StateDkgMasterKeyAwaitCanceledByTimeout
+//@ spec func dkgAwait(s State) bool = s == dpf.StateDkgCommitsAwaitConfirmations || s == dpf.StateDkgDealsAwaitConfirmations || s == dpf.StateDkgResponsesAwaitConfirmations || s == dpf.StateDkgMasterKeyAwaitConfirmations
+//@ spec func dkgStage(s State) bool = dkgAwait(s) || dkgCancelled(s) || s == dpf.StateDkgMasterKeyCollected
+//@ spec func invDkgTable(f *FSM) bool = machineTable(f, "dkg_proposal_fsm", dkgM(f)) && dkgM(f).FSM == f && dkgM(f).payload != nil
+//@ spec func invDkgSig(f *FSM) bool = wfSigQ(dkgM(f).payload) && (0 in sigQ(dkgM(f).payload)) && injSig(sigQ(dkgM(f).payload))
+//@ spec func invDkgState(f *FSM) bool = f.currentState == dpf.StateDkgInitial || dkgStage(f.currentState)
+//@ spec func invDkgWf(f *FSM) bool = (dkgStage(f.currentState) ==> wfDkgQ(dkgM(f).payload) && dkgQ(dkgM(f).payload) != nil) && (dkgM(f).payload.DKGProposalPayload != nil ==> wfDkgQ(dkgM(f).payload)) && (f.currentState == dpf.StateDkgInitial ==> dkgM(f).payload.DKGProposalPayload == nil)
+//@ spec func invDkgInj(f *FSM) bool = dkgM(f).payload.DKGProposalPayload != nil ==> injDkg(dkgQ(dkgM(f).payload))
+// phase / status coupling: while a phase is awaited every participant is awaiting or confirmed in that phase
+//@ spec func awOf(s State) internal.DKGParticipantStatus = ite(s == dpf.StateDkgCommitsAwaitConfirmations, internal.CommitAwaitConfirmation, ite(s == dpf.StateDkgDealsAwaitConfirmations, internal.DealAwaitConfirmation, ite(s == dpf.StateDkgResponsesAwaitConfirmations, internal.ResponseAwaitConfirmation, internal.MasterKeyAwaitConfirmation)))
+//@ spec func okOf(s State) internal.DKGParticipantStatus = ite(s == dpf.StateDkgCommitsAwaitConfirmations, internal.CommitConfirmed, ite(s == dpf.StateDkgDealsAwaitConfirmations, internal.DealConfirmed, ite(s == dpf.StateDkgResponsesAwaitConfirmations, internal.ResponseConfirmed, internal.MasterKeyConfirmed)))
+//   (needed where the table has no transition for the validator's cancel-by-error outcome: commits, deals, responses)
+//@ spec func invDkgPhase(f *FSM) bool = (f.currentState == dpf.StateDkgCommitsAwaitConfirmations || f.currentState == dpf.StateDkgDealsAwaitConfirmations || f.currentState == dpf.StateDkgResponsesAwaitConfirmations) ==> dkgPhaseOk(dkgM(f).payload, awOf(f.currentState), okOf(f.currentState))
+//@ spec func invDkg(f *FSM) bool = invDkgTable(f) && invDkgSig(f) && invDkgState(f) && invDkgWf(f) && invDkgInj(f) && invDkgPhase(f)
+//@ spec func dkgRejectNoop(f *FSM) bool = f.currentState == old(f.currentState) && (old(dkgM(f).payload.DKGProposalPayload) != nil ==> dkgViewsSame(dkgM(f)))
+
+//@ func (*FSM).Do behavior dkg.init
+//@   safety C18
+//@   fvtargets DKGProposalFSM).actionInitDKGProposal DKGProposalFSM).actionValidateDkgProposalAwaitCommits
+//@   requires f != nil && invDkg(f) && event == dpf.EventDKGInitProcess
+//@   ensures[C05.reject.dkg,C18.reject.dkg] err != nil ==> dkgRejectNoop(f)
+//@   ensures[C05.resp] err == nil ==> resp != nil && resp.State == f.currentState
+//@   ensures[C05.resp.reject] resp != nil ==> resp.State == f.currentState
+//@   ensures[C05.inv.table] invDkgTable(f)
+//@   ensures[C05.inv.sig] invDkgSig(f)
+//@   ensures[C05.inv.state] invDkgState(f)
+//@   ensures[C05.inv.wf] invDkgWf(f)
+//@   ensures[C05.inv.inj] invDkgInj(f)
+//@   ensures[C05.inv.phase] invDkgPhase(f)
+//@   ensures[C05.absorbing] dkgCancelled(old(f.currentState)) ==> dkgCancelled(f.currentState)
+//@   ensures[C05.ready] f.currentState == dpf.StateDkgMasterKeyCollected ==> old(f.currentState) == dpf.StateDkgMasterKeyAwaitConfirmations || old(f.currentState) == dpf.StateDkgMasterKeyCollected
+//@   ensures[C05.handover.dkg] err == nil ==> old(f.currentState) == dpf.StateDkgInitial && (f.currentState == dpf.StateDkgCommitsAwaitConfirmations || dkgCancelled(f.currentState) || f.currentState == dpf.StateDkgDealsAwaitConfirmations)
+
+//@ func (*FSM).Do behavior dkg.Commit
+//@   safety C18
+//@   fvtargets DKGProposalFSM).actionCommitConfirmationReceived DKGProposalFSM).actionValidateDkgProposalAwaitCommits
+//@   requires f != nil && invDkg(f) && event == dpf.EventDKGCommitConfirmationReceived
+//@   ensures[C05.reject.dkg,C18.reject.dkg] err != nil ==> dkgRejectNoop(f)
+//@   ensures[C05.resp] err == nil ==> resp != nil && resp.State == f.currentState
+//@   ensures[C05.resp.reject] resp != nil ==> resp.State == f.currentState
+//@   ensures[C05.inv.table] invDkgTable(f)
+//@   ensures[C05.inv.sig] invDkgSig(f)
+//@   ensures[C05.inv.state] invDkgState(f)
+//@   ensures[C05.inv.wf] invDkgWf(f)
+//@   ensures[C05.inv.inj] invDkgInj(f)
+//@   ensures[C05.inv.phase] invDkgPhase(f)
+//@   ensures[C05.absorbing] dkgCancelled(old(f.currentState)) ==> dkgCancelled(f.currentState)
+//@   ensures[C05.ready] f.currentState == dpf.StateDkgMasterKeyCollected ==> old(f.currentState) == dpf.StateDkgMasterKeyAwaitConfirmations || old(f.currentState) == dpf.StateDkgMasterKeyCollected
+//@   ensures[C05.once.Commit,C10.once.Commit] err == nil ==> old(f.currentState) == dpf.StateDkgCommitsAwaitConfirmations && isCommitReq(args) && old(rqCommit(args).ParticipantId in dkgQ(dkgM(f).payload)) && old(dkgQ(dkgM(f).payload)[rqCommit(args).ParticipantId].Status) == internal.CommitAwaitConfirmation
+//@   ensures[C05.next.Commit] err == nil ==> f.currentState == dpf.StateDkgCommitsAwaitConfirmations || f.currentState == dpf.StateDkgDealsAwaitConfirmations || f.currentState == dpf.StateDkgCommitsAwaitCanceledByError || f.currentState == dpf.StateDkgCommitsAwaitCanceledByTimeout
+//@   ensures[C05.unanimous.Commit] err == nil && f.currentState == dpf.StateDkgDealsAwaitConfirmations ==> old(dkgCnt(dkgM(f).payload, internal.CommitConfirmed)) + 1 == old(len(dkgQ(dkgM(f).payload)))
+//@   ensures[C05.twice.Commit] isCommitReq(args) && old(dkgM(f).payload.DKGProposalPayload) != nil && old(rqCommit(args).ParticipantId in dkgQ(dkgM(f).payload)) && old(dkgQ(dkgM(f).payload)[rqCommit(args).ParticipantId].Status) != internal.CommitAwaitConfirmation ==> err != nil
+
+//@ func (*FSM).Do behavior dkg.CommitError
+//@   safety C18
+//@   fvtargets DKGProposalFSM).actionConfirmationError DKGProposalFSM).actionValidateDkgProposalAwaitCommits
+//@   requires f != nil && invDkg(f) && event == dpf.EventDKGCommitConfirmationError
+//@   ensures[C05.reject.dkg,C18.reject.dkg] err != nil ==> dkgRejectNoop(f)
+//@   ensures[C05.resp] err == nil ==> resp != nil && resp.State == f.currentState
+//@   ensures[C05.resp.reject] resp != nil ==> resp.State == f.currentState
+//@   ensures[C05.inv.table] invDkgTable(f)
+//@   ensures[C05.inv.sig] invDkgSig(f)
+//@   ensures[C05.inv.state] invDkgState(f)
+//@   ensures[C05.inv.wf] invDkgWf(f)
+//@   ensures[C05.inv.inj] invDkgInj(f)
+//@   ensures[C05.inv.phase] invDkgPhase(f)
+//@   ensures[C05.absorbing] dkgCancelled(old(f.currentState)) ==> dkgCancelled(f.currentState)
+//@   ensures[C05.ready] f.currentState == dpf.StateDkgMasterKeyCollected ==> old(f.currentState) == dpf.StateDkgMasterKeyAwaitConfirmations || old(f.currentState) == dpf.StateDkgMasterKeyCollected
+//@   ensures[C05.causes.error.Commit] err == nil ==> (old(f.currentState) == dpf.StateDkgCommitsAwaitConfirmations || old(f.currentState) == dpf.StateDkgCommitsAwaitCanceledByError) && (f.currentState == dpf.StateDkgCommitsAwaitCanceledByError || f.currentState == dpf.StateDkgCommitsAwaitCanceledByTimeout)
+
+//@ func (*FSM).Do behavior dkg.Deal
+//@   safety C18
+//@   fvtargets DKGProposalFSM).actionDealConfirmationReceived DKGProposalFSM).actionValidateDkgProposalAwaitDeals
+//@   requires f != nil && invDkg(f) && event == dpf.EventDKGDealConfirmationReceived
+//@   ensures[C05.reject.dkg,C18.reject.dkg] err != nil ==> dkgRejectNoop(f)
+//@   ensures[C05.resp] err == nil ==> resp != nil && resp.State == f.currentState
+//@   ensures[C05.resp.reject] resp != nil ==> resp.State == f.currentState
+//@   ensures[C05.inv.table] invDkgTable(f)
+//@   ensures[C05.inv.sig] invDkgSig(f)
+//@   ensures[C05.inv.state] invDkgState(f)
+//@   ensures[C05.inv.wf] invDkgWf(f)
+//@   ensures[C05.inv.inj] invDkgInj(f)
+//@   ensures[C05.inv.phase] invDkgPhase(f)
+//@   ensures[C05.absorbing] dkgCancelled(old(f.currentState)) ==> dkgCancelled(f.currentState)
+//@   ensures[C05.ready] f.currentState == dpf.StateDkgMasterKeyCollected ==> old(f.currentState) == dpf.StateDkgMasterKeyAwaitConfirmations || old(f.currentState) == dpf.StateDkgMasterKeyCollected
+//@   ensures[C05.once.Deal,C10.once.Deal] err == nil ==> old(f.currentState) == dpf.StateDkgDealsAwaitConfirmations && isDealReq(args) && old(rqDeal(args).ParticipantId in dkgQ(dkgM(f).payload)) && old(dkgQ(dkgM(f).payload)[rqDeal(args).ParticipantId].Status) == internal.DealAwaitConfirmation
+//@   ensures[C05.next.Deal] err == nil ==> f.currentState == dpf.StateDkgDealsAwaitConfirmations || f.currentState == dpf.StateDkgResponsesAwaitConfirmations || f.currentState == dpf.StateDkgDealsAwaitCanceledByError || f.currentState == dpf.StateDkgDealsAwaitCanceledByTimeout
+//@   ensures[C05.unanimous.Deal] err == nil && f.currentState == dpf.StateDkgResponsesAwaitConfirmations ==> old(dkgCnt(dkgM(f).payload, internal.DealConfirmed)) + 1 == old(len(dkgQ(dkgM(f).payload)))
+//@   ensures[C05.twice.Deal] isDealReq(args) && old(dkgM(f).payload.DKGProposalPayload) != nil && old(rqDeal(args).ParticipantId in dkgQ(dkgM(f).payload)) && old(dkgQ(dkgM(f).payload)[rqDeal(args).ParticipantId].Status) != internal.DealAwaitConfirmation ==> err != nil
+
+//@ func (*FSM).Do behavior dkg.DealError
+//@   safety C18
+//@   fvtargets DKGProposalFSM).actionConfirmationError DKGProposalFSM).actionValidateDkgProposalAwaitDeals
+//@   requires f != nil && invDkg(f) && event == dpf.EventDKGDealConfirmationError
+//@   ensures[C05.reject.dkg,C18.reject.dkg] err != nil ==> dkgRejectNoop(f)
+//@   ensures[C05.resp] err == nil ==> resp != nil && resp.State == f.currentState
+//@   ensures[C05.resp.reject] resp != nil ==> resp.State == f.currentState
+//@   ensures[C05.inv.table] invDkgTable(f)
+//@   ensures[C05.inv.sig] invDkgSig(f)
+//@   ensures[C05.inv.state] invDkgState(f)
+//@   ensures[C05.inv.wf] invDkgWf(f)
+//@   ensures[C05.inv.inj] invDkgInj(f)
+//@   ensures[C05.inv.phase] invDkgPhase(f)
+//@   ensures[C05.absorbing] dkgCancelled(old(f.currentState)) ==> dkgCancelled(f.currentState)
+//@   ensures[C05.ready] f.currentState == dpf.StateDkgMasterKeyCollected ==> old(f.currentState) == dpf.StateDkgMasterKeyAwaitConfirmations || old(f.currentState) == dpf.StateDkgMasterKeyCollected
+//@   ensures[C05.causes.error.Deal] err == nil ==> (old(f.currentState) == dpf.StateDkgDealsAwaitConfirmations || old(f.currentState) == dpf.StateDkgDealsAwaitCanceledByError) && (f.currentState == dpf.StateDkgDealsAwaitCanceledByError || f.currentState == dpf.StateDkgDealsAwaitCanceledByTimeout)
+
+//@ func (*FSM).Do behavior dkg.Response
+//@   safety C18
+//@   fvtargets DKGProposalFSM).actionResponseConfirmationReceived DKGProposalFSM).actionValidateDkgProposalAwaitResponses
+//@   requires f != nil && invDkg(f) && event == dpf.EventDKGResponseConfirmationReceived
+//@   ensures[C05.reject.dkg,C18.reject.dkg] err != nil ==> dkgRejectNoop(f)
+//@   ensures[C05.resp] err == nil ==> resp != nil && resp.State == f.currentState
+//@   ensures[C05.resp.reject] resp != nil ==> resp.State == f.currentState
+//@   ensures[C05.inv.table] invDkgTable(f)
+//@   ensures[C05.inv.sig] invDkgSig(f)
+//@   ensures[C05.inv.state] invDkgState(f)
+//@   ensures[C05.inv.wf] invDkgWf(f)
+//@   ensures[C05.inv.inj] invDkgInj(f)
+//@   ensures[C05.inv.phase] invDkgPhase(f)
+//@   ensures[C05.absorbing] dkgCancelled(old(f.currentState)) ==> dkgCancelled(f.currentState)
+//@   ensures[C05.ready] f.currentState == dpf.StateDkgMasterKeyCollected ==> old(f.currentState) == dpf.StateDkgMasterKeyAwaitConfirmations || old(f.currentState) == dpf.StateDkgMasterKeyCollected
+//@   ensures[C05.once.Response,C10.once.Response] err == nil ==> old(f.currentState) == dpf.StateDkgResponsesAwaitConfirmations && isResponseReq(args) && old(rqResponse(args).ParticipantId in dkgQ(dkgM(f).payload)) && old(dkgQ(dkgM(f).payload)[rqResponse(args).ParticipantId].Status) == internal.ResponseAwaitConfirmation
+//@   ensures[C05.next.Response] err == nil ==> f.currentState == dpf.StateDkgResponsesAwaitConfirmations || f.currentState == dpf.StateDkgMasterKeyAwaitConfirmations || f.currentState == dpf.StateDkgResponsesAwaitCanceledByError || f.currentState == dpf.StateDkgResponsesAwaitCanceledByTimeout
+//@   ensures[C05.unanimous.Response] err == nil && f.currentState == dpf.StateDkgMasterKeyAwaitConfirmations ==> old(dkgCnt(dkgM(f).payload, internal.ResponseConfirmed)) + 1 == old(len(dkgQ(dkgM(f).payload)))
+//@   ensures[C05.twice.Response] isResponseReq(args) && old(dkgM(f).payload.DKGProposalPayload) != nil && old(rqResponse(args).ParticipantId in dkgQ(dkgM(f).payload)) && old(dkgQ(dkgM(f).payload)[rqResponse(args).ParticipantId].Status) != internal.ResponseAwaitConfirmation ==> err != nil
+
+//@ func (*FSM).Do behavior dkg.ResponseError
+//@   safety C18
+//@   fvtargets DKGProposalFSM).actionConfirmationError DKGProposalFSM).actionValidateDkgProposalAwaitResponses
+//@   requires f != nil && invDkg(f) && event == dpf.EventDKGResponseConfirmationError
+//@   ensures[C05.reject.dkg,C18.reject.dkg] err != nil ==> dkgRejectNoop(f)
+//@   ensures[C05.resp] err == nil ==> resp != nil && resp.State == f.currentState
+//@   ensures[C05.resp.reject] resp != nil ==> resp.State == f.currentState
+//@   ensures[C05.inv.table] invDkgTable(f)
+//@   ensures[C05.inv.sig] invDkgSig(f)
+//@   ensures[C05.inv.state] invDkgState(f)
+//@   ensures[C05.inv.wf] invDkgWf(f)
+//@   ensures[C05.inv.inj] invDkgInj(f)
+//@   ensures[C05.inv.phase] invDkgPhase(f)
+//@   ensures[C05.absorbing] dkgCancelled(old(f.currentState)) ==> dkgCancelled(f.currentState)
+//@   ensures[C05.ready] f.currentState == dpf.StateDkgMasterKeyCollected ==> old(f.currentState) == dpf.StateDkgMasterKeyAwaitConfirmations || old(f.currentState) == dpf.StateDkgMasterKeyCollected
+//@   ensures[C05.causes.error.Response] err == nil ==> (old(f.currentState) == dpf.StateDkgResponsesAwaitConfirmations || old(f.currentState) == dpf.StateDkgResponsesAwaitCanceledByError) && (f.currentState == dpf.StateDkgResponsesAwaitCanceledByError || f.currentState == dpf.StateDkgResponsesAwaitCanceledByTimeout)
+
+//@ func (*FSM).Do behavior dkg.MasterKey
+//@   safety C18
+//@   fvtargets DKGProposalFSM).actionMasterKeyConfirmationReceived DKGProposalFSM).actionValidateDkgProposalAwaitMasterKey
+//@   requires f != nil && invDkg(f) && event == dpf.EventDKGMasterKeyConfirmationReceived
+//@   ensures[C05.reject.dkg,C18.reject.dkg] err != nil ==> dkgRejectNoop(f)
+//@   ensures[C05.resp] err == nil ==> resp != nil && resp.State == f.currentState
+//@   ensures[C05.resp.reject] resp != nil ==> resp.State == f.currentState
+//@   ensures[C05.inv.table] invDkgTable(f)
+//@   ensures[C05.inv.sig] invDkgSig(f)
+//@   ensures[C05.inv.state] invDkgState(f)
+//@   ensures[C05.inv.wf] invDkgWf(f)
+//@   ensures[C05.inv.inj] invDkgInj(f)
+//@   ensures[C05.inv.phase] invDkgPhase(f)
+//@   ensures[C05.absorbing] dkgCancelled(old(f.currentState)) ==> dkgCancelled(f.currentState)
+//@   ensures[C05.ready] f.currentState == dpf.StateDkgMasterKeyCollected ==> old(f.currentState) == dpf.StateDkgMasterKeyAwaitConfirmations || old(f.currentState) == dpf.StateDkgMasterKeyCollected
+//@   ensures[C05.once.MasterKey,C10.once.MasterKey] err == nil ==> old(f.currentState) == dpf.StateDkgMasterKeyAwaitConfirmations && isMasterKeyReq(args) && old(rqMasterKey(args).ParticipantId in dkgQ(dkgM(f).payload)) && old(dkgQ(dkgM(f).payload)[rqMasterKey(args).ParticipantId].Status) == internal.MasterKeyAwaitConfirmation
+//@   ensures[C05.next.MasterKey] err == nil ==> f.currentState == dpf.StateDkgMasterKeyAwaitConfirmations || f.currentState == dpf.StateDkgMasterKeyCollected || f.currentState == dpf.StateDkgMasterKeyAwaitCanceledByError || f.currentState == dpf.StateDkgMasterKeyAwaitCanceledByTimeout
+//@   ensures[C05.unanimous.MasterKey] err == nil && f.currentState == dpf.StateDkgMasterKeyCollected ==> old(dkgCnt(dkgM(f).payload, internal.MasterKeyConfirmed)) + 1 == old(len(dkgQ(dkgM(f).payload)))
+//@   ensures[C05.twice.MasterKey] isMasterKeyReq(args) && old(dkgM(f).payload.DKGProposalPayload) != nil && old(rqMasterKey(args).ParticipantId in dkgQ(dkgM(f).payload)) && old(dkgQ(dkgM(f).payload)[rqMasterKey(args).ParticipantId].Status) != internal.MasterKeyAwaitConfirmation ==> err != nil
+
+//@ func (*FSM).Do behavior dkg.MasterKeyError
+//@   safety C18
+//@   fvtargets DKGProposalFSM).actionConfirmationError DKGProposalFSM).actionValidateDkgProposalAwaitMasterKey
+//@   requires f != nil && invDkg(f) && event == dpf.EventDKGMasterKeyConfirmationError
+//@   ensures[C05.reject.dkg,C18.reject.dkg] err != nil ==> dkgRejectNoop(f)
+//@   ensures[C05.resp] err == nil ==> resp != nil && resp.State == f.currentState
+//@   ensures[C05.resp.reject] resp != nil ==> resp.State == f.currentState
+//@   ensures[C05.inv.table] invDkgTable(f)
+//@   ensures[C05.inv.sig] invDkgSig(f)
+//@   ensures[C05.inv.state] invDkgState(f)
+//@   ensures[C05.inv.wf] invDkgWf(f)
+//@   ensures[C05.inv.inj] invDkgInj(f)
+//@   ensures[C05.inv.phase] invDkgPhase(f)
+//@   ensures[C05.absorbing] dkgCancelled(old(f.currentState)) ==> dkgCancelled(f.currentState)
+//@   ensures[C05.ready] f.currentState == dpf.StateDkgMasterKeyCollected ==> old(f.currentState) == dpf.StateDkgMasterKeyAwaitConfirmations || old(f.currentState) == dpf.StateDkgMasterKeyCollected
+//@   ensures[C05.causes.error.MasterKey] err == nil ==> (old(f.currentState) == dpf.StateDkgMasterKeyAwaitConfirmations || old(f.currentState) == dpf.StateDkgMasterKeyAwaitCanceledByError) && (f.currentState == dpf.StateDkgMasterKeyAwaitCanceledByError || f.currentState == dpf.StateDkgMasterKeyAwaitCanceledByTimeout)
+
+// every other event, and the internal ones, are refused by the DKG machine
+//@ func (*FSM).Do behavior dkg.other
+//@   safety C18
+//@   fvtargets DKGProposalFSM).
+//@   requires f != nil && invDkg(f) && event != dpf.EventDKGInitProcess && event != dpf.EventDKGCommitConfirmationReceived && event != dpf.EventDKGCommitConfirmationError && event != dpf.EventDKGDealConfirmationReceived && event != dpf.EventDKGDealConfirmationError && event != dpf.EventDKGResponseConfirmationReceived && event != dpf.EventDKGResponseConfirmationError && event != dpf.EventDKGMasterKeyConfirmationReceived && event != dpf.EventDKGMasterKeyConfirmationError
+//@   ensures[C05.reject.dkg,C18.reject.dkg] err != nil && dkgRejectNoop(f) && resp == nil
+//@   ensures[C05.inv.table] invDkgTable(f)
+//@   ensures[C05.inv.sig] invDkgSig(f)
+//@   ensures[C05.inv.state] invDkgState(f)
+//@   ensures[C05.inv.wf] invDkgWf(f)
+//@   ensures[C05.inv.inj] invDkgInj(f)
+//@   ensures[C05.inv.phase] invDkgPhase(f)
